@@ -446,7 +446,7 @@ func vc10Scenario(t *testing.T, line string) (res string) {
 	}
 	labels := strings.Fields(parts[1])
 
-	synctest.Test(t, func(t *testing.T) {
+	func() {
 		g := &vc10Gates{parked: map[string]chan struct{}{}}
 		w := &vc10World{t: t, g: g, ss: cfg["ss"], pos: cfg["pos"], actors: map[string]*vc10Actor{}}
 		defer func() {
@@ -557,7 +557,7 @@ func vc10Scenario(t *testing.T, line string) (res string) {
 		_ = node.Shutdown(context.Background())
 		time.Sleep(3 * time.Second)
 		synctest.Wait()
-	})
+	}()
 	return res
 }
 
@@ -576,13 +576,21 @@ func TestVerifC10(t *testing.T) {
 	defer wr.Flush()
 	sc := bufio.NewScanner(in)
 	sc.Buffer(make([]byte, 1<<20), 1<<26)
+	var lines []string
 	for sc.Scan() {
-		line := sc.Text()
-		if line == "" || strings.HasPrefix(line, "#") {
-			fmt.Fprintln(wr, "#")
-			continue
-		}
-		fmt.Fprintln(wr, vc10Scenario(t, line))
-		wr.Flush()
+		lines = append(lines, sc.Text())
 	}
+	// All scenarios of one process run inside ONE synctest bubble: internal/timers keeps timers in a
+	// global sync.Pool, and a timer created in one bubble must not be reused in another one.  Every
+	// scenario ends with all of its goroutines finished (node shut down, virtual time advanced).
+	synctest.Test(t, func(t *testing.T) {
+		for _, line := range lines {
+			if line == "" || strings.HasPrefix(line, "#") {
+				fmt.Fprintln(wr, "#")
+				continue
+			}
+			fmt.Fprintln(wr, vc10Scenario(t, line))
+			wr.Flush()
+		}
+	})
 }
